@@ -67,6 +67,31 @@ CHECKS["C02"] = dict(
     note=TRUST + "; responsibilities are abstract in the model, their numeric values come from the implementation's "
          "single-sample E-step, itself compared with an independent evaluation")
 
+CHECKS["C01"] = dict(
+    text="TLC checks specs/GmmDensity.tla over specs/LogTerm.tla: with weights, variances and floors restricted to 2^i 3^j 5^k "
+         "every weighted per-component log-density is an exact symbolic term q + p log 2pi + l2 log 2 + l3 log 3 + l5 log 5; the "
+         "cached-normaliser formula equals the declarative product of normalised 1-D Gaussians for every machine / sample of "
+         "the domain (active floors, far tails, mixed scales), rows score identically alone, in a batch and in any chunk, and "
+         "the affine shift law holds; three deviations must be refuted. Every exported scenario is replayed: "
+         "log_weighted_likelihood against the exported terms, log_likelihood against their 60-digit log-sum-exp, single "
+         "vector / NumPy batch / every row-chunked Dask array, statistics log-likelihood, tails finite; quadrature of "
+         "exp(log_likelihood) gives 1.",
+    ref="DESIGN.md section 5 (C01)",
+    technique="TLA+/TLC exact symbolic evaluation + replay of every scenario against a 60-digit evaluator",
+    note=TRUST + "; pure numeric function: TLC contributes exhaustive enumeration and the exact symbolic oracle; the final "
+         "log-sum-exp is evaluated by stdlib decimal (trusted, cross-checked by quadrature)")
+CHECKS["C08"] = dict(
+    text="TLC checks specs/LinearScoring.tla (exact rationals): the score equals the declarative double sum, is zero for the UBM, "
+         "linear in the model offset, additive over statistics, has one row per model and one column per test item, agrees "
+         "between machines and arrays and between a MAP machine and its prior as UBM, is zero for zero-frame statistics under "
+         "normalisation, and is affine invariant; four deviations must be refuted. Every exported scenario is replayed through "
+         "linear_scoring with all input conventions; the derivative clause is validated on seeded real-valued data by a "
+         "Richardson-extrapolated finite difference of the UBM log-likelihood, recorded as fact traces accepted by TLC "
+         "(specs/TraceFacts.tla).",
+    ref="DESIGN.md section 5 (C08)",
+    technique="TLA+/TLC exhaustive model checking + scenario replay + TLC-validated fact traces",
+    note=TRUST + "; the finite-difference identity needs exp/log and is decided by conformance, not by TLC")
+
 PENDING = {}
 
 
